@@ -18,8 +18,15 @@ struct RunOut {
     stderr: String,
 }
 
+thread_local! {
+    /// GLOBAL option of the case being run on this thread ("" | "-q" | "-v" | "-vv"), put in front of every argv of the case
+    static GLOB: std::cell::RefCell<String> = const { std::cell::RefCell::new(String::new()) };
+}
+
 fn run_cli(cli: &Path, cwd: &Path, args: &[String]) -> RunOut {
+    let glob = GLOB.with(|g| g.borrow().clone());
     let mut child = Command::new(cli)
+        .args(if glob.is_empty() { Vec::new() } else { vec![glob] })
         .args(args)
         .current_dir(cwd)
         .env_remove("RUST_LOG")
@@ -200,7 +207,7 @@ fn run_event_rt(
         "opt":opt,"exit":r.exit,"says_fail":says_fail(cmd, r),"want":pair(want),"got":pair(got),"outs":outs,"need_outs":need_outs,
         "view":view,"libview":libview,"err":tail,"stdout_tok":tok(r.stdout.as_bytes()),
         "pre":if rt.pre.is_empty() { "empty" } else { rt.pre.as_str() },"out_tok":rt.out_tok,"fresh_tok":rt.fresh_tok,"out_len":rt.out_len,"fresh_len":rt.fresh_len,
-        "rt_dir":rt.dir,"rt_back_exit":if rt.dir.is_empty() { -9 } else { rt.back_exit },"rt_in":rt.tok_in,"rt_back":rt.tok_back})
+        "glob":GLOB.with(|g| g.borrow().clone()),"rt_dir":rt.dir,"rt_back_exit":if rt.dir.is_empty() { -9 } else { rt.back_exit },"rt_in":rt.tok_in,"rt_back":rt.tok_back})
 }
 
 // --------------------------------------------------------------------------------------------------
@@ -543,6 +550,95 @@ fn lib_view(path: &Path) -> Result<(Vec<String>, Vec<(String, String)>, usize, u
     }
 }
 
+/// names the LIBRARY reports as encrypted
+fn encrypted_names(path: &Path) -> Vec<String> {
+    if !path.is_file() {
+        return Vec::new();
+    }
+    match guarded(|| -> Result<Vec<String>, wow_mpq::Error> {
+        let mut ar = Archive::open(path)?;
+        let names: Vec<String> = ar.list()?.into_iter().map(|e| e.name).collect();
+        Ok(names.into_iter().filter(|n| ar.find_file(n).ok().flatten().map(|f| f.is_encrypted()).unwrap_or(false)).collect())
+    }) {
+        Outcome::Done(Ok(v)) => v,
+        _ => Vec::new(),
+    }
+}
+
+/// scale classes: archives of `count` tiny files around the window / batch constants of the bulk commands
+fn scale_case(cli: &Path, dir: &Path, c: &Value, seed: u64) -> Vec<Value> {
+    let id = gi(c, "id").to_string();
+    let cmd = gs(c, "cmd");
+    let count = gi(c, "count") as usize;
+    let opt = gi(c, "opt");
+    let mut rng = Rng::derive(seed, &format!("c20:scale:{count}"));
+    let reset = json!({"ev":"Reset","case":id,"mode":"scale","fam":"mpq","cmd":cmd,"kind":"mpq","input":"valid","count":count,"opt":opt});
+    let arch = dir.join("many.mpq");
+    let mut b = ArchiveBuilder::new().version(FormatVersion::V2);
+    for i in 0..count {
+        let data: Vec<u8> = (0..1 + rng.below(3)).map(|k| (i as u8).wrapping_add(k as u8)).collect();
+        b = b.add_file_data(data, &format!("d{}\\f{i}.x", i % 7));
+    }
+    if let Err(e) = b.build(&arch) {
+        tool_error(&format!("cannot build the {count}-file archive: {e}"));
+    }
+    let view = lib_view(&arch);
+    let (lib, libval) = match &view {
+        Ok((_, _, bad, _)) => (s("ok"), s(if *bad > 0 { "fail" } else { "ok" })),
+        Err(e) => (s(lib3(e)), s("n/a")),
+    };
+    let af = p(&arch);
+    let outd = dir.join("out");
+    let preserve = opt == 1;
+    let mut a: Vec<String> = vec![s("mpq"), s(cmd), af];
+    match cmd {
+        "extract" => {
+            a.extend([s("-o"), p(&outd)]);
+            if preserve {
+                a.push(s("--preserve-paths"));
+            }
+        }
+        "rebuild" => a.push(p(&dir.join("rebuilt.mpq"))),
+        "list" | "validate" => {}
+        _ => tool_error(&format!("no scale rule for mpq {cmd}")),
+    }
+    let r = run_cli(cli, dir, &a);
+    let (mut want, mut got, mut outs, mut need) = (Vec::new(), Vec::new(), Vec::new(), false);
+    let (mut vw, mut lv) = (Vec::new(), Vec::new());
+    match cmd {
+        "extract" => {
+            if let Ok((_, files, _, _)) = &view {
+                want = files.iter().map(|(n, t)| (on_disk_name(n, preserve), t.clone())).collect();
+            }
+            dir_files(&outd, Path::new(""), &mut got);
+        }
+        "rebuild" => {
+            need = true;
+            if let Ok((_, files, _, _)) = &view {
+                want = files.iter().filter(|(n, _)| !n.starts_with('(')).cloned().collect();
+            }
+            let t = dir.join("rebuilt.mpq");
+            match lib_view(&t) {
+                Ok((_, files, _, _)) => {
+                    got = files;
+                    outs.push(s("ok"));
+                }
+                Err(e) => outs.push(if t.exists() { s(lib3(&e)) } else { s("missing") }),
+            }
+        }
+        "list" => {
+            vw = view_of_list(&r.stdout);
+            if let Ok((n, _, _, _)) = &view {
+                lv = n.clone();
+                lv.sort();
+            }
+        }
+        _ => {}
+    }
+    // keep the trace small: only the tokens that differ matter to TLC; log want/got as they are (<= ~10k pairs)
+    vec![reset, run_event(&id, "mpq", cmd, "mpq", "valid", &lib, &libval, false, false, opt, &r, &want, &got, &outs, need, &vw, &lv)]
+}
+
 fn dir_files(root: &Path, rel: &Path, out: &mut Vec<(String, String)>) {
     if let Ok(rd) = std::fs::read_dir(root.join(rel)) {
         for e in rd.flatten() {
@@ -598,6 +694,12 @@ fn mpq1_case(cli: &Path, dir: &Path, c: &Value, seed: u64) -> Vec<Value> {
     let nfiles = 6 + (variant as usize % 2);
     let pre = c.get("pre").and_then(|x| x.as_str()).unwrap_or("empty").to_string();
     let mut b = ArchiveBuilder::new().version(if variant % 2 == 0 { FormatVersion::V1 } else { FormatVersion::V2 });
+    // file classes: encrypted, fix-key encrypted, multi-sector (compressible), special files ((listfile) + (attributes))
+    b = b
+        .attributes_option(wow_mpq::AttributesOption::GenerateCrc32)
+        .add_file_data_with_options(gen_content("text", 900 + rng.below(600) as usize, &mut rng), "secret\\enc.dat", wow_mpq::compression::flags::ZLIB, true, 0)
+        .add_file_data_with_encryption(gen_content("text", 700 + rng.below(600) as usize, &mut rng), "secret\\fix.dat", wow_mpq::compression::flags::ZLIB, true, 0)
+        .add_file_data(gen_content("text", 40_000 + rng.below(9000) as usize, &mut rng), "big\\multi.txt");
     for (i, n) in names.iter().take(nfiles).enumerate() {
         let data = if i == 0 { gen_content("text", (max_file() * 3 / 8 + rng.below(max_file() * 3 / 8)) as usize, &mut rng) } else { content(&mut rng, i) };
         b = b.add_file_data(data, n);
@@ -693,8 +795,11 @@ fn mpq1_case(cli: &Path, dir: &Path, c: &Value, seed: u64) -> Vec<Value> {
         }
         "rebuild" => {
             a.extend([af, p(&dir.join("rebuilt.mpq"))]);
-            if opt == 1 {
+            if opt & 1 == 1 {
                 a.push(s("--verify"));
+            }
+            if opt & 2 == 2 {
+                a.push(s("--skip-encrypted"));
             }
         }
         "compare" => {
@@ -749,7 +854,9 @@ fn mpq1_case(cli: &Path, dir: &Path, c: &Value, seed: u64) -> Vec<Value> {
             need = true;
             let t = dir.join("rebuilt.mpq");
             if let Ok((_, files, _, _)) = &view {
-                want = files.iter().filter(|(n, _)| !n.starts_with('(')).cloned().collect();
+                // every readable file of the source except the special ones; encrypted ones only leave with --skip-encrypted
+                let enc = encrypted_names(&arch);
+                want = files.iter().filter(|(n, _)| !n.starts_with('(') && !(opt & 2 == 2 && enc.contains(n))).cloned().collect();
             }
             match lib_view(&t) {
                 Ok((_, files, _, _)) => {
@@ -1074,7 +1181,9 @@ fn main() {
         let c = &cases[ci];
         let dir = scratch.path.join(format!("k{}", gi(c, "id")));
         std::fs::create_dir_all(&dir).unwrap();
+        GLOB.with(|g| *g.borrow_mut() = c.get("glob").and_then(|x| x.as_str()).unwrap_or("").to_string());
         let evs = match gs(c, "mode") {
+            "scale" => scale_case(&cli, &dir, c, seed),
             "fmt" => fmt_case(&cli, &dir, c, seed),
             "mpq1" => mpq1_case(&cli, &dir, c, seed),
             "pipe" => pipe_case(&cli, &dir, c, seed),
